@@ -430,16 +430,16 @@ ET_OPTIONAL = ("battery", "battery2", "meter_ext2", "meter_ext", "mppt", "eco_v2
 DT_OPTIONAL = ("meter", "meter_version", "model")
 
 
-def make_inverter(family, tcp=False, T=1, R=0, host="192.0.2.1"):
+def make_inverter(family, tcp=False, T=1, R=0, host="192.0.2.1", comm_addr=0):
     import goodwe
     cls = {"ET": goodwe.ET, "DT": goodwe.DT, "ES": goodwe.ES}[family]
-    return cls(host, 502 if tcp else 8899, 0, T, R)
+    return cls(host, 502 if tcp else 8899, comm_addr, T, R)
 
 
 def build_direct(cfg, default=0):
     """cfg: family, serial(bytes), rated_power, battery_mode, refuse (names), tcp.  Returns (inverter, simulator)."""
     fam = cfg["family"]
-    inv = make_inverter(fam, cfg.get("tcp", False))
+    inv = make_inverter(fam, cfg.get("tcp", False), comm_addr=cfg.get("comm_addr", 0))
     if fam == "ET":
         sim = make_et_sim(serial=cfg["serial"], rated_power=cfg.get("rated_power", 10000), default=default,
                           refuse_blocks=cfg.get("refuse", ()))
